@@ -255,3 +255,23 @@ def drange_rule(model: Model, rep: Report, rid: str) -> None:
         p2 = floordiv_of(up.left)
         ok_up = p2 is not None and p2 == v1
     r5.check(ok_lo and ok_up, site(dr, ret), dr.qualname, "range(floor(v0) // d, floor(v1 + d) // d)", why=f"returns `{unparse(ret.value)}`: the last (or first) cell of an interval is left out for some coordinates, so an object lying in it is never found")
+
+
+def plane_membership_rule(model: Model, rep: Report, rid: str) -> None:
+    """The part of the Plane contract the grouping loops of the layout analysis rely on: an object is live from add to
+    remove, whatever its position (also wholly outside the plane, where it occupies no grid cell)."""
+    P = "pdfminer.utils.Plane."
+    add, remove, it = (model.func(P + n) for n in ("add", "remove", "__iter__"))
+    r = rep.rule(rid, "WRITESET", "Plane membership: add registers and remove unregisters the object on every path (also for objects that occupy no grid cell); iteration yields exactly the live objects", 4)
+    g = build_cfg(add.node)
+    for callee, what in (("self._seq.append", "add appends obj to _seq on every path"), ("self._objs.add", "add registers obj in _objs on every path")):
+        wit = g.all_path_pass(g.entry, lambda n, c=callee: n.ast is not None and n.kind == "stmt" and contains_call(n.ast, lambda k: (dotted(k.func) or "") == c))
+        r.check(wit is None, site(add), add.qualname, what, why="a path from entry to exit avoids the call")
+    g = build_cfg(remove.node, exc_edges=False)
+    wit = g.all_path_pass(g.entry, lambda n: n.ast is not None and n.kind == "stmt" and contains_call(n.ast, lambda k: (dotted(k.func) or "") in ("self._objs.remove", "self._objs.discard")))
+    r.check(wit is None, site(remove), remove.qualname, "remove unregisters obj from _objs on every path", why="a path avoids self._objs.remove (e.g. an object outside the plane has no cells, so a call inside the cell loop never runs): a merged text box stays in the plane next to the group that contains it")
+    gens = [n for n in walk_no_nested(it.node) if isinstance(n, (ast.GeneratorExp, ast.ListComp))]
+    iter_ok = any(unparse(ge.generators[0].iter) == "self._seq" and any(isinstance(i, ast.Compare) and isinstance(i.ops[0], ast.In) and unparse(i.comparators[0]) == "self._objs" for i in ge.generators[0].ifs) for ge in gens)
+    if not gens:
+        iter_ok = any(isinstance(n, ast.For) and unparse(n.iter) == "self._seq" and "self._objs" in unparse(n) for n in walk_no_nested(it.node))
+    r.check(iter_ok, site(it), it.qualname, "__iter__ yields self._seq filtered by membership in self._objs", why=unparse(it.node)[:120])
